@@ -460,8 +460,13 @@ class Balancer:
 
         # TODO: what if this is a set value, but *not* the same as other_side
         if claripy.backends.vsa.identical(left_side, other_side):
-            # We can safely eliminate this layer of ZeroExt
-            return Bool(truism.op, (truism.args[0].args[1], truism.args[1][len(truism.args[1]) - num_zeroes - 1 : 0]))
+            # We can safely eliminate this layer of SignExt.  The two sides agree on their high bits, the sign
+            # included, so their order is that of the remaining low bits read as unsigned numbers (with x in [0, 7],
+            # SignExt(2, x) <s 8 always holds at 6 bits, x <s 8 never does at 4 bits, x <u 8 always does)
+            return Bool(
+                Balancer._unsigned_comparison(truism.op),
+                (truism.args[0].args[1], truism.args[1][len(truism.args[1]) - num_zeroes - 1 : 0]),
+            )
 
         return truism
 
